@@ -1,6 +1,6 @@
 (* TransferProofs.v — conservation and rigid-motion lemmas for the transfer models (C11). *)
 From Coq Require Import Reals ZArith Lra Lia Arith.
-From OAS Require Import Scalar Rops Sums Transfer.
+From OAS Require Import Scalar Rops Sums Transfer Constants.
 Open Scope R_scope.
 
 (* node sums re-organised as panel sums *)
@@ -62,3 +62,183 @@ Section LT.
       apply rsum_ext; intros i Hi; field.
   Qed.
 End LT.
+
+(* ---------------- MeshPointForces ---------------- *)
+Lemma iff0_rsum b n f : iff0 b (rsum n f) = rsum n (fun j => iff0 b (f j)).
+Proof. destruct b; unfold iff0; rops; [reflexivity|]. symmetry; apply rsum_zero; reflexivity. Qed.
+
+(* a quantity scattered from panels to their four corner nodes with node weights X:
+   summing over nodes equals summing the four weighted contributions over panels *)
+Lemma grid_scatter n m (X A B C D : nat -> nat -> R) :
+  rsum (S n) (fun i => rsum (S m) (fun j => X i j *
+      ( iff0 ((i <? n) && (j <? m)) (A i j)
+      + iff0 ((0 <? i) && (j <? m)) (B (i - 1)%nat j)
+      + iff0 ((0 <? i) && (0 <? j)) (C (i - 1)%nat (j - 1)%nat)
+      + iff0 ((i <? n) && (0 <? j)) (D i (j - 1)%nat))))
+  = rsum n (fun i => rsum m (fun j =>
+      X i j * A i j + X (S i) j * B i j + X (S i) (S j) * C i j + X i (S j) * D i j)).
+Proof.
+  set (P := fun i j => X i j * A i j). set (Q := fun i j => X i (S j) * D i j).
+  set (U := fun i j => X (S i) j * B i j). set (V := fun i j => X (S i) (S j) * C i j).
+  transitivity (rsum (S n) (fun i =>
+       iff0 (i <? n) (rsum m (fun j => P i j + Q i j))
+     + iff0 (0 <? i) (rsum m (fun j => U (i - 1)%nat j + V (i - 1)%nat j)))).
+  { apply rsum_ext; intros i Hi.
+    rewrite <- (node_to_panel m (P i) (Q i)), <- (node_to_panel m (U (i-1)%nat) (V (i-1)%nat)).
+    rewrite !iff0_rsum, <- rsum_plus. apply rsum_ext; intros j Hj.
+    unfold P, Q, U, V.
+    destruct i as [|i'], j as [|j'].
+    - replace (0 <? 0) with false by reflexivity. destruct (0 <? n), (0 <? m); unfold iff0; cbn [andb]; rops; ring.
+    - replace (0 <? 0) with false by reflexivity. replace (0 <? S j') with true by reflexivity.
+      replace (S j' - 1)%nat with j' by lia.
+      destruct (0 <? n), (S j' <? m); unfold iff0; cbn [andb]; rops; ring.
+    - replace (0 <? 0) with false by reflexivity. replace (0 <? S i') with true by reflexivity.
+      replace (S i' - 1)%nat with i' by lia.
+      destruct (S i' <? n), (0 <? m); unfold iff0; cbn [andb]; rops; ring.
+    - replace (0 <? S i') with true by reflexivity. replace (0 <? S j') with true by reflexivity.
+      replace (S i' - 1)%nat with i' by lia. replace (S j' - 1)%nat with j' by lia.
+      destruct (S i' <? n), (S j' <? m); unfold iff0; cbn [andb]; rops; ring. }
+  rewrite (node_to_panel n (fun i => rsum m (fun j => P i j + Q i j))
+                           (fun i => rsum m (fun j => U i j + V i j))).
+  apply rsum_ext; intros i Hi. rewrite <- rsum_plus. apply rsum_ext; intros j Hj.
+  unfold P, Q, U, V. ring.
+Qed.
+
+Section MPF.
+  Variables (npx npy : nat) (le te : R).
+  Variable mesh : nat -> nat -> nat -> R.
+  Variable F : nat -> nat -> nat -> R.
+
+  Lemma mpf_weighted (X : nat -> nat -> R) d :
+    rsum (S npx) (fun i => rsum (S npy) (fun j => X i j * mesh_point_forces npx npy le te F i j d))
+    = rsum npx (fun i => rsum npy (fun j =>
+        F i j d * (le * (X i j + X i (S j)) + te * (X (S i) j + X (S i) (S j))))).
+  Proof.
+    unfold mesh_point_forces. rops.
+    rewrite (grid_scatter npx npy X (fun i j => F i j d * le) (fun i j => F i j d * te)
+                          (fun i j => F i j d * te) (fun i j => F i j d * le)).
+    apply rsum_ext; intros i Hi. apply rsum_ext; intros j Hj. ring.
+  Qed.
+
+  Lemma mpf_force_conserved d :
+    rsum (S npx) (fun i => rsum (S npy) (fun j => mesh_point_forces npx npy le te F i j d))
+    = 2 * (le + te) * rsum npx (fun i => rsum npy (fun j => F i j d)).
+  Proof.
+    transitivity (rsum (S npx) (fun i => rsum (S npy) (fun j => 1 * mesh_point_forces npx npy le te F i j d))).
+    { apply rsum_ext; intros; apply rsum_ext; intros; ring. }
+    rewrite (mpf_weighted (fun _ _ => 1)).
+    rewrite <- rsum_scal. apply rsum_ext; intros i Hi.
+    rewrite <- rsum_scal. apply rsum_ext; intros j Hj. ring.
+  Qed.
+
+  (* total moment about any point p: the mesh-point forces acting at the mesh points are
+     equivalent to the panel forces acting at the panel force points (quarter chord) *)
+  Lemma mpf_moment_conserved (p : nat -> R) d : (d < 3)%nat ->
+    le = 375 / 1000 -> te = 125 / 1000 ->
+    rsum (S npx) (fun i => rsum (S npy) (fun j =>
+        cross (vsub (mesh i j) p) (mesh_point_forces npx npy le te F i j) d))
+    = rsum npx (fun i => rsum npy (fun j => cross (vsub (force_pts mesh i j) p) (F i j) d)).
+  Proof.
+    intros Hd Hle Hte.
+    assert (E : forall a b, (a < 3)%nat -> (b < 3)%nat ->
+      rsum (S npx) (fun i => rsum (S npy) (fun j =>
+         (mesh i j a - p a) * mesh_point_forces npx npy le te F i j b))
+      = rsum npx (fun i => rsum npy (fun j => (force_pts mesh i j a - p a) * F i j b))).
+    { intros a b _ _. rewrite (mpf_weighted (fun i j => mesh i j a - p a) b).
+      apply rsum_ext; intros i Hi. apply rsum_ext; intros j Hj.
+      unfold force_pts, ofrac; rops. subst le te. field. }
+    destruct d as [|[|[|d]]]; try lia; unfold cross, mk3, vsub; rops.
+    all: rewrite (rsum_ext _ _ _ (fun i _ => rsum_minus _ _ _)), rsum_minus, !E by lia;
+      rewrite <- rsum_minus; apply rsum_ext; intros i Hi;
+      rewrite <- rsum_minus; apply rsum_ext; intros j Hj; reflexivity.
+  Qed.
+End MPF.
+
+(* ---------------- displacement transfer: rigid-motion identities ---------------- *)
+Lemma transf_zero a b : transf 0 0 0 a b = 0.
+Proof.
+  unfold transf, o2. rops. rewrite ?cos_0, ?sin_0.
+  destruct a as [|[|[|a]]], b as [|[|[|b]]]; lra.
+Qed.
+
+Section DT.
+  Variable mesh : nat -> nat -> nat -> R.
+  Variable disp : nat -> nat -> R.
+  Variables (npx : nat) (w : R).
+
+  (* zero rotations: the mesh is translated exactly by the nodal translations *)
+  Lemma disp_translation_exact i j d :
+    disp j 3%nat = 0 -> disp j 4%nat = 0 -> disp j 5%nat = 0 ->
+    def_mesh_group npx w mesh disp i j d = mesh i j d + disp j d.
+  Proof.
+    intros H3 H4 H5. unfold def_mesh_group, def_mesh, def_mesh_rot, transf_mtx. rops.
+    rewrite H3, H4, H5. rewrite (rsum_zero 3); [lra|].
+    intros k Hk. rewrite transf_zero. lra.
+  Qed.
+
+  Lemma disp_zero_identity i j d :
+    (forall c, disp j c = 0) -> def_mesh_group npx w mesh disp i j d = mesh i j d.
+  Proof. intros H. rewrite disp_translation_exact by apply H. rewrite H. lra. Qed.
+End DT.
+
+(* the first-order part of the rotation map is the skew generator:  sum_k r_k dT/dr_k|_0 arm = r x arm *)
+Lemma disp_rotation_first_order (r arm : nat -> R) d : (d < 3)%nat ->
+  rsum 3 (fun k => r k * rsum 3 (fun b => transf_d 0 0 0 d b k * arm b)) = cross r arm d.
+Proof.
+  intros Hd. unfold transf_d, cross, mk3. rops. rewrite ?cos_0, ?sin_0.
+  destruct d as [|[|[|d]]]; try lia; cbn [sumn]; rops; rewrite ?cos_0, ?sin_0; ring.
+Qed.
+
+(* ---------------- C01: the reported derivative of the transformation matrix ---------------- *)
+From Coquelicot Require Import Coquelicot.
+From OAS Require Import Deriv.
+
+Lemma transf_derive_rx rx ry rz a b :
+  is_derive (fun t => transf t ry rz a b) rx (transf_d rx ry rz a b 0%nat).
+Proof.
+  destruct a as [|[|[|a]]], b as [|[|[|b]]]; unfold transf, transf_d, o2; rops;
+    auto_derive; try exact I; ring.
+Qed.
+Lemma transf_derive_ry rx ry rz a b :
+  is_derive (fun t => transf rx t rz a b) ry (transf_d rx ry rz a b 1%nat).
+Proof.
+  destruct a as [|[|[|a]]], b as [|[|[|b]]]; unfold transf, transf_d, o2; rops;
+    auto_derive; try exact I; ring.
+Qed.
+Lemma transf_derive_rz rx ry rz a b :
+  is_derive (fun t => transf rx ry t a b) rz (transf_d rx ry rz a b 2%nat).
+Proof.
+  destruct a as [|[|[|a]]], b as [|[|[|b]]]; unfold transf, transf_d, o2; rops;
+    auto_derive; try exact I; ring.
+Qed.
+
+(* the load-transfer aerodynamic centres at w1 = 1/4 are the panel force points *)
+Lemma lt_apts_is_force_pts mesh i j d : lt_apts (1 / 4) mesh i j d = force_pts mesh i j d.
+Proof. unfold lt_apts, force_pts, ohalf, ofrac; rops. field. Qed.
+
+(* the constants as they stand in the source (coq/Generated/Constants.v) *)
+Lemma gen_mpf_weights : @gen_mpf_le_wt R Rops = 375 / 1000 /\ @gen_mpf_te_wt R Rops = 125 / 1000.
+Proof. unfold gen_mpf_le_wt, gen_mpf_te_wt, ofrac; rops. split; lra. Qed.
+Lemma gen_lt_w1_quarter : @gen_lt_w1 R Rops = 1 / 4.
+Proof. unfold gen_lt_w1, ofrac; rops. lra. Qed.
+
+Lemma mpf_force_conserved_code npx npy F d :
+    rsum (S npx) (fun i => rsum (S npy) (fun j =>
+        mesh_point_forces npx npy gen_mpf_le_wt gen_mpf_te_wt F i j d))
+    = rsum npx (fun i => rsum npy (fun j => F i j d)).
+Proof. rewrite mpf_force_conserved. destruct gen_mpf_weights as [-> ->]. lra. Qed.
+
+Lemma mpf_moment_conserved_code npx npy mesh F (p : nat -> R) d : (d < 3)%nat ->
+    rsum (S npx) (fun i => rsum (S npy) (fun j =>
+        cross (vsub (mesh i j) p) (mesh_point_forces npx npy gen_mpf_le_wt gen_mpf_te_wt F i j) d))
+    = rsum npx (fun i => rsum npy (fun j => cross (vsub (force_pts mesh i j) p) (F i j) d)).
+Proof. intros. apply mpf_moment_conserved; auto; apply gen_mpf_weights. Qed.
+
+Lemma lt_apts_code_is_force_pts mesh i j d : lt_apts gen_lt_w1 mesh i j d = force_pts mesh i j d.
+Proof. rewrite gen_lt_w1_quarter. apply lt_apts_is_force_pts. Qed.
+
+Lemma transf_d_is_derivative rx ry rz a b :
+    is_derive (fun t => transf t ry rz a b) rx (transf_d rx ry rz a b 0%nat) /\
+    is_derive (fun t => transf rx t rz a b) ry (transf_d rx ry rz a b 1%nat) /\
+    is_derive (fun t => transf rx ry t a b) rz (transf_d rx ry rz a b 2%nat).
+Proof. split; [apply transf_derive_rx | split; [apply transf_derive_ry | apply transf_derive_rz]]. Qed.
